@@ -398,6 +398,18 @@ impl Space for C13 {
     fn chunk(&self) -> u64 {
         64
     }
+    fn heavy(&self) -> Vec<(u64, u64)> {
+        // whole-file loads, long cycles and chains: everything except the token soups
+        let mut out = vec![];
+        let mut start = 0;
+        for (name, _, size) in &self.fams.fams {
+            if !name.contains("soup") {
+                out.push((start, start + size));
+            }
+            start += size;
+        }
+        out
+    }
     fn time_limit(&self, _idx: u64) -> std::time::Duration {
         std::time::Duration::from_secs(20)
     }
